@@ -33,6 +33,10 @@
   deme names": `ms_roundtrip_names_accepts`, `ms_roundtrip_names` (by name; the ORDER of the demes is that of the
   graph only when it lists its demes by start time: `ms_roundtrip_names_order_counterexample` / `_partial`), on
   top of the invariance of the observable under renaming (`graphSem_rename_invariant`).
+  §9 — the wider fragment `Tame2` of C08 against `to_ms` output: `Tame2 = Tame'` there, both exactly `PulsesTame`
+  (`toMs_output_tame2`), so the order clause of `PulsesTame` cannot be weakened through `Tame2`; pulse chains are
+  outside and, by evaluation, converted correctly (`ms_roundtrip_chains_outside_tame2`); without any condition on the
+  pulses everything but the lineage movements comes back, given acceptance (`ms_roundtrip_sizes_migs`).
 
   Chain printer ↔ parser ↔ source: `parser_arity_matches_printer` (the printer emits as many
   tokens as `Ms.arity` demands), `dest_matches_table`, and `Tables.tables_ms_model_arity` /
@@ -48,6 +52,7 @@ import DemesVerif.Proofs.MsAccExamples
 import DemesVerif.Proofs.MsAccValidators
 import DemesVerif.Proofs.MsNamesExamples
 import DemesVerif.Proofs.MsGrowExamples
+import DemesVerif.Proofs.MsTame2Examples
 import DemesVerif.Theorems.TablesMsModel
 namespace Demes.Theorems
 open Demes Demes.Ms Demes.Spec.C09
@@ -835,6 +840,229 @@ example : roundTripEpochs Proofs.MsGrow.MigExample.exSa growBranch1 1
     = some [[(8, ⟨2, -(34657359027997264 / 10 ^ 17) / 4 * 8⟩, ⟨2, -(34657359027997264 / 10 ^ 17) / 4 * 8⟩, "constant"),
              (0, ⟨2, -(34657359027997264 / 10 ^ 17) / 4 * 8⟩, ⟨2, 0⟩, "exponential")],
             [(0, ⟨1/2, 0⟩, ⟨1/2, 0⟩, "constant")]] := by decide +kernel
+
+/-! ## 9. The wider fragment `Tame2` of C08 against the commands `to_ms` prints (the order clause of `PulsesTame`)
+
+`PulsesTame g` (§5) has two clauses: every pulse proportion is below one (forced: F6), and of two pulses at one time
+the one listed first does not go into the source of the one listed later.  The second clause came from the method:
+it is what the fragment `Tame'` of C08 asks of the command.  C08 has since proved its refinement on a wider fragment,
+`Tame2` (`Theorems/C08.lean` §11): a population may be split or joined after it has received lineages in the same time
+group, provided it received them BY A JOIN (`q = 1`).  This section determines what that buys for `to_ms`.
+
+**Nothing.**  In a command of `to_ms` the moves of one time `T` are, in command order: the pulses of time `T`, last
+listed first, each an `-es`/`-ej` pair that moves the fraction `q` = the pulse's proportion from the destination to the
+source; then the demes that start at `T`, each a run of such pairs that ends with the join to the last ancestor.  In a
+valid graph the source of a pulse does not start at the pulse's time and an ancestor starts strictly before its
+descendant, so the target of a move is never a deme that starts at `T`: the only "source after target" of a `to_ms`
+group is a pulse into the source of a pulse listed later (`Proofs.MsTame2.nsat_dpMoves_iff`) — deme starts together with
+pulses at one time, pulses into a newborn deme, pulses into or out of its ancestors are all inside `Tame'` already.  And
+for a pulse chain the earlier move is never a join: `Tame2` itself asks `0 < p` of every `-es t i p`, here `p = 1 -
+proportion`, so `q < 1`.  Hence, group by group, `GoodGroup2 = GoodGroup` (`Proofs.MsTame2.group_both`), and:
+
+* `toMs_output_tame2` / `toMs_output_tame2_growth` — the parser reads the printed command of a valid ms-expressible
+  graph as a command `pr` with `Tame2 pr = Tame' pr`, and `Tame2 pr` holds EXACTLY when `PulsesTame g` does.  So
+  `PulsesTame` is not only sufficient for the fragments, it is necessary for both: there is no weaker graph condition
+  `PulsesTame2` to be had from `Tame2`, and no separate definition is made.
+* `ms_roundtrip_sem_all_tame2` / `ms_roundtrip_growth_sem_all_tame2` — `ms_roundtrip_sem_all` / `ms_roundtrip_growth_sem_all`
+  with `PulsesTame g` replaced by "the printed command is in `Tame2`" (the same hypothesis, by the above): `from_ms`
+  accepts and the round trip holds.
+* What is outside (`ms_roundtrip_chains_outside_tame2`): pulse chains — proportions below one, valid, ms-expressible;
+  outside `PulsesTame`, `Tame'` and `Tame2` — are accepted and, by evaluation, converted correctly, lineage movements
+  included (`from_ms` writes both moves as pulses, in command order, and they compose as the `-es`/`-ej` pairs do; a
+  newborn deme gets its whole row of the lineage-movement matrix as ancestry).  Replayed on the real library
+  (`demes.from_ms(demes.to_ms(g, N0=1), N0=1, deme_names=…)`): the same commands and the same graphs as the Model's; for
+  the two-pulse chain `Graph.isclose` holds, for the chains that end in a newborn deme the movement matrices agree and
+  `isclose` fails only because the pulse into the newborn deme is folded into its ancestry.  A random search on the
+  real library (20 000 graphs with one to four same-time pulses, deme starts with one to three ancestors, demes that
+  end at that time; 1 630 of them with pulse chains, 1 119 of those with a deme born at the time) found no rejection
+  and no wrong lineage movement (movement matrices of the two graphs compared at every time of the graph).  No counterexample
+  with proportions below one is known; the order clause stays a hypothesis of the METHOD.
+* What holds without the clause (`ms_roundtrip_sizes_migs`, `ms_roundtrip_growth_sizes_migs`): for EVERY valid
+  ms-expressible graph — no condition on the pulses — whose printed command `from_ms` accepts, the command has a
+  meaning `sem` that describes the demography of the graph completely (`SemRefines sem gs`, lineage movements included:
+  C07 needs no fragment), and the returned graph has the populations, lifetimes, sizes at every time and migration rates
+  of the graph (`Spec.C09.SemRefinesSizesMigs rs gs`: `SemRefines` without its last clause; C08's `fromMs_sizes_migs_sem`
+  needs no fragment either).  What is missing for the chains is (a) acceptance — proved in §6 on `Tame'` only — and (b)
+  `rs.moves = sem.moves`, which needs C08's link C on a fragment that contains them.  A candidate (evaluated, not
+  proved): "every move of the group is between populations that exist before the group, and no population that is
+  joined in the group is the target of a move of the group" — every group of a `to_ms` command with proportions below
+  one has this shape; on the 1 500 625 commands `-I 3 1 1 1` + four options out of `-es 1.0 i 0.5` (`i ≤ 5`), `-ej 1.0 i j`
+  (`i ≠ j ≤ 6`), of which both sides accept 8 685, it contains 21 commands outside `Tame2`, all converted correctly. -/
+
+open Demes.Spec.C08 (Tame2 semEquivSizesMigs)
+open Demes.Proofs.MsTame2 (fragsOf fourDemes startPulses startPulsesChain longChain sizesMigsHyps roundTripNoMoves
+  refinesNoMovesAt returned)
+
+/-- **`Tame2` of the printed command is `Tame'`, and is `PulsesTame` of the graph** (constant sizes).  For a valid
+ms-expressible graph of constant sizes, `N0 > 0`, well-formed `samples` and a codec that covers the numbers of the
+command: the ms parser reads the printed command as a command `pr`; `pr` is in the wider fragment `Tame2` if and only
+if it is in `Tame'` (as Booleans: `Tame2 pr = Tame' pr`); and that is the case if and only if the pulses of the graph
+are tame. -/
+theorem toMs_output_tame2 (c : NumCodec) (sa : Growth → String) {g : Graph} (hv : Spec.validGraph g = true)
+    (hx : MsExpressible g = true) (hcs : ConstSizes g = true) {N0 : Q} (hN : 0 < N0)
+    {samples : Option (List Int)} (hs : samplesOk g samples = true) {toks : List (Tok Growth)}
+    (htoks : toMs g N0 samples = .ok toks) (hc : CodecCovers c toks) :
+    ∃ pr, Spec.MsSem.parse (renderG c sa toks) = .ok pr ∧ Tame2 pr = Tame' pr
+      ∧ (Tame2 pr = true ↔ PulsesTame g = true) :=
+  Proofs.MsTame2.toMs_output_tame2 c sa hv hx hcs hN hs htoks hc
+
+/-- the same with exponential epochs (hypotheses of §8) -/
+theorem toMs_output_tame2_growth (c : NumCodec) (sa : Growth → String) {g : Graph} (hv : Spec.validGraph g = true)
+    (hx : MsExpressible g = true) {N0 : Q} (hN : 0 < N0)
+    {samples : Option (List Int)} (hs : samplesOk g samples = true) {toks : List (Tok Growth)}
+    (htoks : toMs g N0 samples = .ok toks) (hc : CodecCovers c toks)
+    (hsa : GrowthPrinter sa (epochGrowths g N0)) :
+    ∃ pr, Spec.MsSem.parse (renderG c sa toks) = .ok pr ∧ Tame2 pr = Tame' pr
+      ∧ (Tame2 pr = true ↔ PulsesTame g = true) :=
+  Proofs.MsTame2.toMs_output_tame2V c sa hv hx hN hs htoks hc hsa
+
+/-- **Graph → ms → graph on the wider fragment** (constant sizes): `ms_roundtrip_sem_all` with `PulsesTame g` replaced
+by "the printed command, as the ms parser reads it, is in `Tame2`".  `from_ms` accepts the command, and the returned
+graph describes the demography of `normalizeProportions g`. -/
+theorem ms_roundtrip_sem_all_tame2 (c : NumCodec) (sa : Growth → String) {g : Graph} (hv : Spec.validGraph g = true)
+    (hx : MsExpressible g = true) (hcs : ConstSizes g = true)
+    {N0 : Q} (hN : 0 < N0) {samples : Option (List Int)} (hs : samplesOk g samples = true)
+    {toks : List (Tok Growth)} (htoks : toMs g N0 samples = .ok toks) (hc : CodecCovers c toks)
+    {pr : Spec.MsSem.Parsed} (hpr : Spec.MsSem.parse (renderG c sa toks) = .ok pr) (ht : Tame2 pr = true) :
+    ∃ mg sem rs gs, fromMs (renderG c sa toks) N0 none = .ok mg
+      ∧ msSem (renderG c sa toks) N0 = .ok sem ∧ resultSem mg = .ok rs
+      ∧ graphSem (inGenerations (normalizeProportions g)) none = .ok gs
+      ∧ semEquiv sem rs = true ∧ SemRefines sem gs ∧ SemRefines rs gs :=
+  Proofs.MsTame2.ms_roundtrip_sem_all_tame2 c sa hv hx hcs hN hs htoks hc hpr ht
+
+/-- **Graph → ms → graph on the wider fragment, with exponential epochs**: `ms_roundtrip_growth_sem_all` with
+`PulsesTame g` replaced by "the printed command is in `Tame2`". -/
+theorem ms_roundtrip_growth_sem_all_tame2 (c : NumCodec) (sa : Growth → String) {g : Graph} (hv : Spec.validGraph g = true)
+    (hx : MsExpressible g = true)
+    {N0 : Q} (hN : 0 < N0) {samples : Option (List Int)} (hs : samplesOk g samples = true)
+    {toks : List (Tok Growth)} (htoks : toMs g N0 samples = .ok toks) (hc : CodecCovers c toks)
+    (hsa : GrowthPrinter sa (epochGrowths g N0))
+    {pr : Spec.MsSem.Parsed} (hpr : Spec.MsSem.parse (renderG c sa toks) = .ok pr) (ht : Tame2 pr = true) :
+    ∃ mg sem rs gs, fromMs (renderG c sa toks) N0 none = .ok mg
+      ∧ msSem (renderG c sa toks) N0 = .ok sem ∧ resultSem mg = .ok rs
+      ∧ graphSem (inGenerations (normalizeProportions g)) none = .ok gs
+      ∧ semEquiv sem rs = true
+      ∧ SemRefines sem (regrow (growthVal sa) N0 gs) ∧ SemRefines rs (regrow (growthVal sa) N0 gs)
+      ∧ SemRefinesUpToGrowth sem gs ∧ SemRefinesUpToGrowth rs gs :=
+  Proofs.MsTame2.ms_roundtrip_growth_sem_all_tame2 c sa hv hx hN hs htoks hc hsa hpr ht
+
+/-- **Graph → ms → graph without the lineage movements, for every graph `from_ms` accepts** (constant sizes; NO
+condition on the pulses).  Let `g` be a valid ms-expressible graph of constant sizes, `N0 > 0`, and `c` a codec that
+covers the numbers of the command `to_ms` prints.  If `from_ms` accepts the command (a hypothesis: F6; discharged on
+`PulsesTame` by `ms_roundtrip_accepts`), then the command has a meaning `sem` under the ms interpreter, the returned
+graph has an observable `rs`, and with `gs` the demography of `normalizeProportions g`: `sem` and `rs` agree on
+populations, lifetimes, sizes, growth rates and migrations (C08's `semEquivSizesMigs`); `sem` describes `gs` completely
+(`SemRefines`, lineage movements included); and `rs` describes `gs` in everything but the lineage movements
+(`SemRefinesSizesMigs`: the same populations in the same order, the same lifetimes, the deme's size at EVERY time of its
+lifetime, the same migration rates). -/
+theorem ms_roundtrip_sizes_migs (c : NumCodec) (sa : Growth → String) {g : Graph} (hv : Spec.validGraph g = true)
+    (hx : MsExpressible g = true) (hcs : ConstSizes g = true)
+    {N0 : Q} (hN : 0 < N0) {samples : Option (List Int)} (hs : samplesOk g samples = true)
+    {toks : List (Tok Growth)} (htoks : toMs g N0 samples = .ok toks) (hc : CodecCovers c toks)
+    {mg : MsGraph} (hfrom : fromMs (renderG c sa toks) N0 none = .ok mg) :
+    ∃ sem rs gs, msSem (renderG c sa toks) N0 = .ok sem ∧ resultSem mg = .ok rs
+      ∧ graphSem (inGenerations (normalizeProportions g)) none = .ok gs
+      ∧ semEquivSizesMigs sem rs = true ∧ SemRefines sem gs ∧ SemRefinesSizesMigs rs gs :=
+  Proofs.MsTame2.ms_roundtrip_sizes_migs c sa hv hx hcs hN hs htoks hc hfrom
+
+/-- the same with exponential epochs (hypotheses of §8), against the demography with the printed growth rates -/
+theorem ms_roundtrip_growth_sizes_migs (c : NumCodec) (sa : Growth → String) {g : Graph} (hv : Spec.validGraph g = true)
+    (hx : MsExpressible g = true)
+    {N0 : Q} (hN : 0 < N0) {samples : Option (List Int)} (hs : samplesOk g samples = true)
+    {toks : List (Tok Growth)} (htoks : toMs g N0 samples = .ok toks) (hc : CodecCovers c toks)
+    (hsa : GrowthPrinter sa (epochGrowths g N0))
+    {mg : MsGraph} (hfrom : fromMs (renderG c sa toks) N0 none = .ok mg) :
+    ∃ sem rs gs, msSem (renderG c sa toks) N0 = .ok sem ∧ resultSem mg = .ok rs
+      ∧ graphSem (inGenerations (normalizeProportions g)) none = .ok gs
+      ∧ semEquivSizesMigs sem rs = true
+      ∧ SemRefines sem (regrow (growthVal sa) N0 gs) ∧ SemRefinesSizesMigs rs (regrow (growthVal sa) N0 gs) :=
+  Proofs.MsTame2.ms_roundtrip_growth_sizes_migs c sa hv hx hN hs htoks hc hsa hfrom
+
+/-- `SemRefines` is `SemRefinesSizesMigs` together with the clause on the lineage movements -/
+theorem semRefines_iff_sizesMigs_and_moves {A gs : Spec.MsSem.DemogSem} :
+    SemRefines A gs ↔ SemRefinesSizesMigs A gs ∧ Spec.C07.restrictMoves gs A.moves = some gs.moves :=
+  Proofs.MsTame2.refines_iff
+
+/-! ### the boundary, with its witnesses -/
+
+/-- **inside all three**: `fourDemes startPulses` — demes `A`, `B`, `C` from the infinite past, `D` born at time 4 from
+`A` and `B`; at time 4 a pulse `C → D` into the newborn deme, a pulse `C → A` into one of its ancestors, a pulse `B → C`
+out of the other, listed in this order — is valid, ms-expressible, `PulsesTame`; its command is in `Tame'` and `Tame2`
+(`fragsOf`: the pair); the round trip is right. -/
+theorem ms_roundtrip_starts_with_pulses_inside :
+    Spec.validGraph (fourDemes startPulses) = true ∧ MsExpressible (fourDemes startPulses) = true
+    ∧ PulsesTame (fourDemes startPulses) = true ∧ fragsOf (fourDemes startPulses) 1 = some (true, true)
+    ∧ roundTripAgainst (fourDemes startPulses) (fourDemes startPulses) 1 [0, 3, 4, 5] = some true :=
+  Proofs.MsTame2.starts_with_pulses_inside
+
+/-- **outside all three, and converted correctly**: pulse chains.  `chainGraph` (`A → B`, `B → C` at one time);
+`fourDemes startPulsesChain` (the pulses of `startPulses` with `B → C` listed first: it goes into the source of the
+other two); `fourDemes longChain` (`A → B`, `B → C`, `C → D` at the time `D` is born).  Every proportion is below one;
+the graphs are valid, ms-expressible, of constant sizes, NOT `PulsesTame`; their commands are outside `Tame'` and
+outside `Tame2`; `from_ms` accepts them (`accepted`); and the returned graph passes `refinesAt` — sizes, migrations AND
+lineage movements — against the graph. -/
+theorem ms_roundtrip_chains_outside_tame2 :
+    [Proofs.MsRT.chainGraph, fourDemes startPulsesChain, fourDemes longChain].all
+        (fun g => Spec.validGraph g && MsExpressible g && ConstSizes g
+          && g.pulses.all (fun p => p.proportions.all (fun x => decide (x < 1))) && !PulsesTame g) = true
+    ∧ [Proofs.MsRT.chainGraph, fourDemes startPulsesChain, fourDemes longChain].map (fun g => fragsOf g 1)
+        = [some (false, false), some (false, false), some (false, false)]
+    ∧ [Proofs.MsRT.chainGraph, fourDemes startPulsesChain, fourDemes longChain].map (fun g => accepted g 1)
+        = [true, true, true]
+    ∧ roundTripAgainst Proofs.MsRT.chainGraph Proofs.MsRT.chainGraph 1 [0, 3, 4, 5] = some true
+    ∧ roundTripAgainst (fourDemes startPulsesChain) (fourDemes startPulsesChain) 1 [0, 3, 4, 5] = some true
+    ∧ roundTripAgainst (fourDemes longChain) (fourDemes longChain) 1 [0, 3, 4, 5] = some true :=
+  Proofs.MsTame2.chains_outside_tame2
+
+/-- **outside all three, and rejected (F6)**: a pulse of proportion 1 -/
+theorem ms_roundtrip_full_pulse_outside_tame2 :
+    PulsesTame (twoDemePulse 1) = false ∧ fragsOf (twoDemePulse 1) 1 = some (false, false)
+    ∧ accepted (twoDemePulse 1) 1 = false
+    ∧ PulsesTame (Proofs.MsRT.tameGraph Proofs.MsRT.fullPulse) = false :=
+  Proofs.MsTame2.full_pulse_outside
+
+/-! ### non-vacuity of §9 -/
+
+/-- the hypotheses of `toMs_output_tame2` are those of `toMs_output_tame` without `PulsesTame` (`roundTripHyps`,
+`acceptHyps` imply them); both sides of its equivalence occur: `fragsOf` evaluates `(Tame' pr, Tame2 pr)` -/
+example : [branchMig, admixture, twoDemePulse (1/2), fourDemes startPulses].map (fun g => (PulsesTame g, fragsOf g 1))
+    = [(true, some (true, true)), (true, some (true, true)), (true, some (true, true)), (true, some (true, true))] := by
+  decide +kernel
+example : (PulsesTame Proofs.MsRT.chainGraph, fragsOf Proofs.MsRT.chainGraph 1) = (false, some (false, false)) := by
+  decide +kernel
+
+/-- the hypotheses of `ms_roundtrip_sizes_migs` (`sizesMigsHyps`: valid, ms-expressible, constant sizes, `N0 > 0`,
+the codec covers the command, `from_ms` accepts it — nothing about the pulses) hold for the chain graphs, and for
+graphs with tame pulses; not for the F6 graph; and the theorem applies -/
+example : [Proofs.MsRT.chainGraph, fourDemes startPulsesChain, fourDemes longChain, fourDemes startPulses, branchMig].all
+    (fun g => sizesMigsHyps g 1) = true := by decide +kernel
+example : sizesMigsHyps (twoDemePulse 1) 1 = false := by decide +kernel
+example := Proofs.MsTame2.sizesMigs_of_hyps (g := fourDemes longChain) (N0 := 1) (by decide +kernel)
+
+/-- `refinesNoMovesAt ts` is the decidable consequence of `SemRefinesSizesMigs` that samples the sizes at the times
+`ts`; the conclusion evaluated independently of the theorem (`roundTripNoMoves`), and it is not vacuous: it fails
+against the chain graph with other deme sizes -/
+example {A gs : Spec.MsSem.DemogSem} (h : SemRefinesSizesMigs A gs) (ts : List Q) : refinesNoMovesAt A gs ts = true :=
+  Proofs.MsTame2.refinesNoMovesAt_of h ts
+example : roundTripNoMoves (fourDemes longChain) (fourDemes longChain) 1 [0, 3, 4, 5] = some true
+    ∧ roundTripNoMoves Proofs.MsRT.chainGraph Proofs.MsRT.chainGraph 1 [0, 3, 4, 5] = some true
+    ∧ roundTripNoMoves Proofs.MsRT.chainGraph (Proofs.MsTame2.threeDemes Proofs.MsRT.chainGraph.pulses) 1 [0] = some false := by
+  decide +kernel
+
+/-- the printed command of the three-pulse chain, and what comes back: `D` gets its whole row of the
+lineage-movement matrix as ancestry (the pulse `C → D` at its start time is folded in: 25/64 = 1/8·1/2 + 7/8·3/4·1/2,
+7/32 = 7/8·1/4), the other two pulses come back as pulses in the graph's order.  The real library prints the same
+command and returns the same graph (proportions 0.390625, 0.390625, 0.21875). -/
+example : (toMs (fourDemes longChain) 1 none).toOption.map (renderG tableCodec growthStr)
+    = some ["-I", "4", "0", "0", "0", "0", "-n", "2", "2.0", "-n", "3", "3.0", "-n", "4", "0.5",
+            "-es", "1.0", "4", "0.125", "-ej", "1.0", "5", "3", "-es", "1.0", "3", "0.25", "-ej", "1.0", "6", "2",
+            "-es", "1.0", "2", "0.5", "-ej", "1.0", "7", "1", "-es", "1.0", "4", "0.5", "-ej", "1.0", "8", "1",
+            "-ej", "1.0", "4", "2"] := by decide +kernel
+example : (returned (fourDemes longChain) 1).map (fun g' => g'.demes.map (fun d => (d.name, d.ancestors, d.proportions)))
+    = some [("deme1", [], []), ("deme2", [], []), ("deme3", [], []),
+            ("deme4", ["deme1", "deme2", "deme3"], [25/64, 25/64, 7/32])] := by decide +kernel
+example : (returned (fourDemes longChain) 1).map (fun g' => g'.pulses.map (fun p => (p.sources, p.dest, p.proportions)))
+    = some [(["deme1"], "deme2", [1/2]), (["deme2"], "deme3", [3/4])] := by decide +kernel
 
 /-! ## Non-vacuity (§§1–5) -/
 
